@@ -439,3 +439,118 @@ class ChunkyText(io.TextIOBase):
 
     def getvalue(self):
         return self._buf.getvalue()
+
+
+class PipeText(io.TextIOBase):
+    """
+    The write end of a caller-owned, non-seekable text stream (think: sys.stdout, a pipe, a socket file): writable,
+    not readable, `seek` / `tell` / `truncate` raise io.UnsupportedOperation.  The harness looks at what went through
+    with getvalue(), starts a new pipe with reset(), and hands pane the matching read end with reader().
+    """
+
+    def __init__(self, fs, chunk):
+        super().__init__()
+        self._fs = fs
+        self._parts = []
+        self._chunk = max(1, chunk)
+
+    def readable(self):
+        return False
+
+    def writable(self):
+        return True
+
+    def seekable(self):
+        return False
+
+    def isatty(self):
+        return False
+
+    def write(self, s):
+        self._checkClosed()
+        if not isinstance(s, str):
+            raise TypeError(f"string argument expected, got {type(s).__name__!r}")
+        for f in self._fs.active_faults('stream_write'):
+            if f.hit():
+                self._fs.note_fired(f, self)
+                if f.kind == 'short':
+                    continue
+                raise f.make_exc('stream write')
+        self._parts.append(s)
+        return len(s)
+
+    def read(self, *a):
+        raise io.UnsupportedOperation('not readable')
+
+    def readline(self, *a):
+        raise io.UnsupportedOperation('not readable')
+
+    def seek(self, *a):
+        raise io.UnsupportedOperation('underlying stream is not seekable')
+
+    def tell(self):
+        raise io.UnsupportedOperation('underlying stream is not seekable')
+
+    def truncate(self, *a):
+        raise io.UnsupportedOperation('underlying stream is not seekable')
+
+    def flush(self):
+        self._checkClosed()
+
+    # -- harness side
+    def getvalue(self):
+        return ''.join(self._parts)
+
+    def reset(self):
+        self._parts = []
+
+    def reader(self):
+        return PipeReader(self._fs, self.getvalue(), self._chunk)
+
+
+class PipeReader(io.TextIOBase):
+    """The read end: readable only, not seekable, read(n) returns at most `chunk` characters at a time."""
+
+    def __init__(self, fs, text, chunk):
+        super().__init__()
+        self._fs = fs
+        self._buf = io.StringIO(text)
+        self._chunk = max(1, chunk)
+
+    def readable(self):
+        return True
+
+    def writable(self):
+        return False
+
+    def seekable(self):
+        return False
+
+    def read(self, size=-1):
+        self._checkClosed()
+        for f in self._fs.active_faults('stream_read'):
+            if f.hit():
+                self._fs.note_fired(f, self)
+                if f.kind == 'short':
+                    continue
+                raise f.make_exc('stream read')
+        if size is None or size < 0:
+            return self._buf.read()
+        n = min(size, self._chunk)
+        out = self._buf.read(n)
+        if n < size and len(out) == n:
+            self._fs.counters['text_short_reads'] = self._fs.counters.get('text_short_reads', 0) + 1
+        return out
+
+    def readline(self, size=-1):
+        self._checkClosed()
+        return self._buf.readline(size)
+
+    def write(self, s):
+        raise io.UnsupportedOperation('not writable')
+
+    def seek(self, *a):
+        raise io.UnsupportedOperation('underlying stream is not seekable')
+
+    def tell(self):
+        raise io.UnsupportedOperation('underlying stream is not seekable')
